@@ -44,7 +44,7 @@ theorem Inv.editOK_flush {cfg : Cfg} {s : St} {d : Disk} (h : Inv cfg s d) {j : 
   rw [h1, h2, he] at hkind
   simp only at hkind
   obtain ⟨houts, hejn, hesq, hrm, hmk, hfzne⟩ := hkind
-  obtain ⟨⟨pf, hpf, hpfn⟩, hlv⟩ := f6 hnc
+  obtain ⟨⟨pf, hpf, hpfn⟩, hlv⟩ := f6 hnc.flushPending
   obtain ⟨mf, v0, v, hparts, hv, hvl, hvok, hmono⟩ := h.disk.last
   rw [hv] at hlv
   obtain ⟨hvjn, hvsq⟩ : v.jn ≤ jf ∧ v.sq ≤ s.frozenSeq := hlv
@@ -54,11 +54,19 @@ theorem Inv.editOK_flush {cfg : Cfg} {s : St} {d : Disk} (h : Inv cfg s d) {j : 
   obtain ⟨hasc, hiss, hlive⟩ := rel_file_facts h.disk hv hpf (by rw [hpfn]; exact hvjn)
   rw [hpfall] at hasc hiss hlive
   refine ⟨v, hv, ?_⟩
-  have hjn0 : e.jn.getD 0 = s.jcur := by rw [hejn]; rfl
-  have hsq0 : e.sq.getD 0 = s.frozenSeq := by rw [hesq]; rfl
+  have hjn0 : e.jn.getD v.jn = s.jcur := by rw [hejn]; rfl
+  have hsq0 : e.sq.getD v.sq = s.frozenSeq := by rw [hesq]; rfl
   have hbv := hb.all mf hcur _ (Nat.le_refl _) v hvl
+  rw [seqHi_eq (not_trWindow_of_bc hj hbc)] at hbv
+  have hcap : sqCap s j = s.seq := by unfold sqCap; rw [if_neg (by rw [hk]; exact fun hx => nomatch hx)]
   constructor
   · have x := hok.shape; rw [he] at x; exact x
+  · have x := hok.inputs; rw [he] at x
+    have x : InputsOK s d j e := x
+    unfold InputsOK at x
+    rw [if_neg (by rw [hk]; decide)] at x
+    rw [x.1]
+    simp
   · rw [hjn0, hog]
     intro p hp hge hlt g hg
     have r1 := holds_some hrun.rel hcur
@@ -72,7 +80,8 @@ theorem Inv.editOK_flush {cfg : Cfg} {s : St} {d : Disk} (h : Inv cfg s d) {j : 
     · rw [h3] at hg; cases hg
   · rw [hsq0, hog]
     intro g hg
-    refine ⟨f3 g hg, (hiss g hg).1, hasc.recs_ne hg, fun x hx => hlive x hx g hg, fun x hx => hasc.disj hg hx⟩
+    refine ⟨f3 g hg, (hiss g hg).1, hasc.recs_ne hg, fun x hx => Or.inr (Or.inr (hlive x hx g hg)),
+      fun x hx => hasc.disj hg hx⟩
   · rw [hjn0, hsq0, hog]
     intro p hp hge g hg
     have hpe : p.1 = s.jcur := Nat.le_antisymm (hrun.jmax p hp) hge
@@ -87,7 +96,7 @@ theorem Inv.editOK_flush {cfg : Cfg} {s : St} {d : Disk} (h : Inv cfg s d) {j : 
     refine ⟨Nat.le_of_lt this, fun x hx => ?_⟩
     have := f3 x hx
     omega
-  · rw [hjn0, hsq0]
+  · rw [hjn0, hsq0, hcap]
     have hjl : s.jcur < s.nextFile := by
       have hl := hrun.jcur
       rw [holds_iff] at hl
@@ -154,9 +163,11 @@ theorem Inv.editOK_recovMid {cfg : Cfg} {s : St} {d : Disk} (h : Inv cfg s d) {j
       rw [m1 pf hpf hpfn] at hasc hiss hlive
       exact fun g hg => ⟨(hiss g hg).1, hasc.recs_ne hg, fun x hx => hlive x hx g hg, fun x hx => hasc.disj hg hx⟩
     · rw [hemp]; intro g hg; cases hg
-  have hjn0 : e.jn.getD 0 = n := by rw [hejn]; rfl
-  have hsq0 : e.sq.getD 0 = s.seq := by rw [hesq]; rfl
+  have hjn0 : e.jn.getD v.jn = n := by rw [hejn]; rfl
+  have hsq0 : e.sq.getD v.sq = s.seq := by rw [hesq]; rfl
   have hbv := hb.all mf hcur _ (Nat.le_refl _) v hvl
+  rw [seqHi_eq (not_trWindow_of_bc hj hbc)] at hbv
+  have hcap : sqCap s j = s.seq := by unfold sqCap; rw [if_neg (by rw [hk]; exact fun hx => nomatch hx)]
   -- the head of the todo list
   obtain ⟨rest, htodo⟩ : ∃ rest, r.todo = n :: rest := by
     cases ht : r.todo with
@@ -174,6 +185,12 @@ theorem Inv.editOK_recovMid {cfg : Cfg} {s : St} {d : Disk} (h : Inv cfg s d) {j
   refine ⟨v, hv, ?_⟩
   constructor
   · have x := hok.shape; rw [he] at x; exact x
+  · have x := hok.inputs; rw [he] at x
+    have x : InputsOK s d j e := x
+    unfold InputsOK at x
+    rw [if_neg (by rw [hk]; decide)] at x
+    rw [x.1]
+    simp
   · rw [hjn0, hog]
     intro p hp hge hlt g hg
     rcases hrel p hp hge with h3 | h3 | h3
@@ -186,7 +203,7 @@ theorem Inv.editOK_recovMid {cfg : Cfg} {s : St} {d : Disk} (h : Inv cfg s d) {j
   · rw [hsq0, hog]
     intro g hg
     obtain ⟨a, b, c, e'⟩ := hmf g hg
-    exact ⟨by have := m2 g hg; omega, a, b, c, e'⟩
+    exact ⟨by have := m2 g hg; omega, a, b, fun x hx => Or.inr (Or.inr (c x hx)), e'⟩
   · rw [hjn0, hsq0, hog]
     intro p hp hge g hg
     rcases hrel p hp (by omega) with h3 | h3 | h3
@@ -196,7 +213,7 @@ theorem Inv.editOK_recovMid {cfg : Cfg} {s : St} {d : Disk} (h : Inv cfg s d) {j
       omega
     · rw [ho] at h3; cases h3; omega
     · rw [h3] at hg; cases hg
-  · rw [hjn0, hsq0]
+  · rw [hjn0, hsq0, hcap]
     exact ⟨by omega, hbv.1, Nat.le_refl _, (fun hr => by rw [hph] at hr; cases hr),
       hrec.nums.2.2 n (by rw [htodo]; exact List.mem_cons_self)⟩
   · intro o' ho'
@@ -239,9 +256,11 @@ theorem Inv.editOK_recovFinal {cfg : Cfg} {s : St} {d : Disk} (h : Inv cfg s d) 
   rw [hv] at hrel
   have hrel : ∀ p ∈ d.journals, v.jn ≤ p.1 → p.1 ∈ r.todo ∨ some p.1 = r.ofd ∨ p.2.all = [] := hrel.1
   have hog := outsGrps_mdb houts
-  have hjn0 : e.jn.getD 0 = n := by rw [hejn]; rfl
-  have hsq0 : e.sq.getD 0 = s.seq := by rw [hesq]; rfl
+  have hjn0 : e.jn.getD v.jn = n := by rw [hejn]; rfl
+  have hsq0 : e.sq.getD v.sq = s.seq := by rw [hesq]; rfl
   have hbv := hb.all mf hcur _ (Nat.le_refl _) v hvl
+  rw [seqHi_eq (not_trWindow_of_bc hj hbc)] at hbv
+  have hcap : sqCap s j = s.seq := by unfold sqCap; rw [if_neg (by rw [hk]; exact fun hx => nomatch hx)]
   have hf := hok.fresh
   have hfv := holds_some (holds_some (hf.2 hbc) hcur _ (Nat.le_refl _)) hvl
   have hmdb := hrec.mdb
@@ -249,6 +268,12 @@ theorem Inv.editOK_recovFinal {cfg : Cfg} {s : St} {d : Disk} (h : Inv cfg s d) 
   refine ⟨v, hv, ?_⟩
   constructor
   · have x := hok.shape; rw [he] at x; exact x
+  · have x := hok.inputs; rw [he] at x
+    have x : InputsOK s d j e := x
+    unfold InputsOK at x
+    rw [if_neg (by rw [hk]; decide)] at x
+    rw [x.1]
+    simp
   · rw [hjn0, hog]
     intro p hp hge hlt g hg
     rcases hrel p hp hge with h3 | h3 | h3
@@ -278,20 +303,178 @@ theorem Inv.editOK_recovFinal {cfg : Cfg} {s : St} {d : Disk} (h : Inv cfg s d) 
         obtain ⟨_, hvo⟩ : Mirror s v ∧ ∀ o, r.ofd = some o → v.jn ≤ o := hview
         obtain ⟨hasc, hiss, hlive⟩ := rel_file_facts h.disk hv hpf (by rw [hpfn]; exact hvo o ho)
         rw [m1 pf hpf hpfn] at hasc hiss hlive
-        exact ⟨by have := m2 g hg; omega, (hiss g hg).1, hasc.recs_ne hg, fun x hx => hlive x hx g hg,
-          fun x hx => hasc.disj hg hx⟩
+        exact ⟨by have := m2 g hg; omega, (hiss g hg).1, hasc.recs_ne hg,
+          fun x hx => Or.inr (Or.inr (hlive x hx g hg)), fun x hx => hasc.disj hg hx⟩
       · rw [hemp] at hg; cases hg
   · rw [hjn0, hsq0, hog]
     intro p hp hge g hg
     rcases hjall p hp with h3 | ⟨_, h3⟩
     · omega
     · rw [h3] at hg; cases hg
-  · rw [hjn0, hsq0]
+  · rw [hjn0, hsq0, hcap]
     have := hfv.2 n hn
     have := hvok.jnf
     exact ⟨by omega, hbv.1, Nat.le_refl _, (fun hr => by rw [hph] at hr; cases hr), hnlt⟩
   · intro o' ho'
     exact ⟨hfv.1 o' ho', hf.1 o' ho'⟩
+
+/-- the session mirrors the last view while the job's edit is neither in the manifest nor in a manifest that
+    `CURRENT` names -/
+theorem JobOK.mirror_before {cfg : Cfg} {s : St} {d : Disk} {j : Job} (h : JobOK cfg s d j)
+    (hbc : j.pc.beforeCommit = true) : Settled cfg s d (Mirror s) := by
+  have hm := h.manifest
+  unfold JobManifestOK at hm
+  cases he : j.edit with
+  | none => rw [he] at hm; exact hm
+  | some e =>
+    rw [he] at hm
+    simp only at hm
+    cases hpc : j.pc <;> rw [hpc] at hm hbc <;> simp only [JobManifest, JPc.beforeCommit] at hm hbc
+    all_goals first
+      | exact hm
+      | exact hm.1
+      | cases hbc
+      | exact absurd hm id
+
+theorem Inv.editOK_compaction {cfg : Cfg} {s : St} {d : Disk} (h : Inv cfg s d) {j : Job} (hj : s.job = some j)
+    (hk : j.kind = .compaction) {e : MRec} (he : j.edit = some e) (hbc : j.pc.beforeCommit = true) :
+    ∃ v, lastView cfg d = some v ∧ EditOK s d j e v := by
+  have hok := h.job
+  rw [hj] at hok
+  have hok : JobOK cfg s d j := hok
+  have hkind := hok.kind
+  unfold JobKindOK at hkind
+  rw [hk] at hkind
+  simp only at hkind
+  obtain ⟨hph, hmk, hrmj, _⟩ := hkind
+  have hb := h.bounds (by rw [hph]; decide)
+  obtain ⟨mf, v0, v, hparts, hv, hvl, hvok, hmono⟩ := h.disk.last
+  have hcur := hparts.cur
+  have hbv := hb.all mf hcur _ (Nat.le_refl _) v hvl
+  rw [seqHi_eq (not_trWindow_of_bc hj hbc)] at hbv
+  have hcap : sqCap s j = s.seq := by unfold sqCap; rw [if_neg (by rw [hk]; exact fun hx => nomatch hx)]
+  have hin := hok.inputs
+  rw [he] at hin
+  have hin : InputsOK s d j e := hin
+  unfold InputsOK at hin
+  rw [if_pos hk] at hin
+  obtain ⟨hejn, hesq, hdel, hdlt, hpre⟩ := hin
+  obtain ⟨hdlive, hog⟩ := hpre hbc
+  have hmir := hok.mirror_before hbc
+  unfold Settled at hmir
+  have hmir := (holds_some hmir hcur).2
+  rw [hv] at hmir
+  obtain ⟨hvlive, _, _⟩ : Mirror s v := hmir
+  have hjn0 : e.jn.getD v.jn = v.jn := by rw [hejn]; rfl
+  have hsq0 : e.sq.getD v.sq = v.sq := by rw [hesq]; rfl
+  have hsub : ∀ g ∈ outsGrps j, g ∈ liveGrps d v := by
+    intro g hg
+    rw [hog] at hg
+    obtain ⟨t, ht, hgt⟩ := List.mem_flatMap.1 hg
+    exact List.mem_flatMap.2 ⟨t, by rw [hvlive]; exact hdlive t ht, hgt⟩
+  refine ⟨v, hv, ?_⟩
+  constructor
+  · have x := hok.shape; rw [he] at x; exact x
+  · exact ⟨fun t ht => by rw [hvlive]; exact hdlive t ht, fun g hg => by rw [hog]; exact hg⟩
+  · rw [hjn0]
+    intro p _ hge hlt
+    omega
+  · rw [hsq0]
+    intro g hg
+    obtain ⟨a, b, c⟩ := hvok.tseq g (hsub g hg)
+    exact ⟨a, b, c, fun x hx => hvok.tdisj g (hsub g hg) x hx, fun x hx => hvok.tdisj g (hsub g hg) x (hsub x hx)⟩
+  · rw [hjn0, hsq0]
+    intro p hp hge g hg
+    have hpr : p ∈ relJournals d v.jn := mem_relJournals.2 ⟨hp, hge⟩
+    exact ⟨(hvok.jseq p hpr g hg).1, fun x hx => hvok.tj x (hsub x hx) p hpr g hg⟩
+  · rw [hjn0, hsq0, hcap]
+    have := hvok.jnf
+    exact ⟨Nat.le_refl _, Nat.le_refl _, hbv.1, hbv.2.2, by omega⟩
+  · intro o ho
+    have hf := hok.fresh
+    refine ⟨?_, hf.1 o ho⟩
+    exact (holds_some (holds_some (hf.2 hbc) hcur _ (Nat.le_refl _)) hvl).1 o ho
+
+theorem Inv.editOK_tr {cfg : Cfg} {s : St} {d : Disk} (h : Inv cfg s d) {j : Job} (hj : s.job = some j)
+    (hk : j.kind = .tr) {e : MRec} (he : j.edit = some e) (hbc : j.pc.beforeCommit = true) :
+    ∃ v, lastView cfg d = some v ∧ EditOK s d j e v := by
+  have hok := h.job
+  rw [hj] at hok
+  have hok : JobOK cfg s d j := hok
+  have hkind := hok.kind
+  unfold JobKindOK at hkind
+  rw [hk] at hkind
+  simp only at hkind
+  obtain ⟨hph, hmk, hrmj, hrmt, hkind⟩ := hkind
+  have hrun := h.run hph
+  have hb := h.bounds (by rw [hph]; decide)
+  obtain ⟨mf, v0, v, hparts, hv, hvl, hvok, hmono⟩ := h.disk.last
+  have hcur := hparts.cur
+  have hbv := hb.all mf hcur _ (Nat.le_refl _) v hvl
+  rw [seqHi_eq (not_trWindow_of_bc hj hbc)] at hbv
+  rw [holds_iff] at hkind
+  obtain ⟨g, hg, hkind⟩ := hkind
+  rw [he] at hkind
+  obtain ⟨hejn, hesq, houts, hgne, hgi⟩ :
+    e.jn = none ∧ e.sq = some (g.fin - 1) ∧ j.outs = [(e.added.headD 0, [g])] ∧ g.recs ≠ [] ∧ g ∈ issuedGrps s := hkind
+  have htr := hrun.norecov.2
+  unfold TrOK at htr
+  rw [hg] at htr
+  obtain ⟨hw, hmem, hfz, hgs, _⟩ : s.w = .idle ∧ s.mem = [] ∧ s.frozen = none ∧ g.seq = s.seq + 1 ∧ g.sync = true := htr
+  have hfin := Grp.seq_lt_fin hgne
+  have hcap : sqCap s j = g.fin - 1 := by unfold sqCap; rw [if_pos hk, hg]
+  have hjn0 : e.jn.getD v.jn = v.jn := by rw [hejn]; rfl
+  have hsq0 : e.sq.getD v.sq = g.fin - 1 := by rw [hesq]; rfl
+  have hog : outsGrps j = [g] := by simp [outsGrps, houts]
+  -- every journal the last view would replay is empty
+  have hempty : ∀ p ∈ d.journals, v.jn ≤ p.1 → p.2.all = [] := by
+    intro p hp hge
+    have r1 := holds_some hrun.rel hcur
+    have r2 := holds_some r1 hparts.hv0
+    rcases r2 p hp (Nat.le_trans hmono hge) with h3 | h3 | h3
+    · have hl := hrun.jcur
+      rw [holds_iff] at hl
+      obtain ⟨jf, hjf, hall⟩ := hl
+      have : lookup d.journals p.1 = some p.2 := lookup_of_mem (sorted_nodup h.disk.jsorted) (by cases p; exact hp)
+      rw [h3, hjf] at this
+      cases this
+      rw [hall, hmem, hw]; rfl
+    · rcases frozenOK_iff.1 hrun.frozen with ⟨_, h4⟩ | ⟨fz, jf, h4, _⟩
+      · rw [h4] at h3; cases h3
+      · rw [hfz] at h4; cases h4
+    · exact h3
+  have hin := hok.inputs
+  rw [he] at hin
+  have hin : InputsOK s d j e := hin
+  unfold InputsOK at hin
+  rw [if_neg (by rw [hk]; exact fun hx => nomatch hx)] at hin
+  refine ⟨v, hv, ?_⟩
+  constructor
+  · have x := hok.shape; rw [he] at x; exact x
+  · rw [hin.1]; simp
+  · rw [hjn0]
+    intro p _ hge hlt
+    omega
+  · rw [hsq0, hog]
+    intro x hx
+    simp only [List.mem_singleton] at hx
+    subst hx
+    refine ⟨by omega, hgi, hgne, fun y hy => ?_, fun y hy => ?_⟩
+    · have := (hvok.tseq y hy).1
+      exact Or.inr (Or.inr (by omega))
+    · simp only [List.mem_singleton] at hy
+      exact Or.inl hy.symm
+  · rw [hjn0]
+    intro p hp hge x hx
+    rw [hempty p hp hge] at hx
+    cases hx
+  · rw [hjn0, hsq0, hcap]
+    have := hvok.jnf
+    exact ⟨Nat.le_refl _, by omega, Nat.le_refl _, hbv.2.2, by omega⟩
+  · intro o ho
+    have hf := hok.fresh
+    refine ⟨?_, hf.1 o ho⟩
+    exact (holds_some (holds_some (hf.2 hbc) hcur _ (Nat.le_refl _)) hvl).1 o ho
 
 /-- the output tables are on disk once the table phase is over -/
 theorem JobOK.outs_on_disk {cfg : Cfg} {s : St} {d : Disk} {j : Job} (h : JobOK cfg s d j)
